@@ -107,11 +107,34 @@ def setitem(obj, idx, val):
             from . import symnp
             idx = symnp.index_array(idx)
         if type(obj) is np.ndarray and obj.dtype != object and _has_sym(val):
-            raise Unsupported('store of a symbolic value into a concrete %s array' % obj.dtype)
+            conc = _concrete_floats(val) if getattr(core.ctx(), 'mode', 'exact') == 'mixed' and obj.dtype.kind == 'f' else None
+            if conc is None:
+                raise Unsupported('store of a symbolic value into a concrete %s array' % obj.dtype)
+            val = conc       # mixed mode: concrete exact values are rounded to the destination's doubles
         if type(obj) is np.ndarray and obj.dtype == object:
             from . import symnp
             val = symnp.coerce_for_store(obj, idx, val)
     obj[idx] = val
+
+
+def _concrete_floats(val):
+    """exact but fully concrete value(s) -> float / float array, None if anything is symbolic"""
+    if isinstance(val, R):
+        return float(val.v) if val.is_concrete() else None
+    if isinstance(val, np.ndarray) and val.dtype == object:
+        out = np.empty(val.shape, dtype=float)
+        flat = out.reshape(-1)
+        for i, e in enumerate(val.reshape(-1)):
+            if isinstance(e, R):
+                if not e.is_concrete():
+                    return None
+                flat[i] = float(e.v)
+            elif isinstance(e, (int, float, np.number)):
+                flat[i] = float(e)
+            else:
+                return None
+        return out
+    return None
 
 
 def delitem(obj, idx):
@@ -173,6 +196,14 @@ def mod(fmt, arg):
     return fmt % arg
 
 
+# ---------------------------------------------------------------- decimal literals
+def flit(v):
+    if core.active() and getattr(core.ctx(), 'mode', 'exact') == 'exact':
+        from fractions import Fraction
+        return R(Fraction(repr(v)))
+    return v
+
+
 # ---------------------------------------------------------------- bitwise operators
 def bitop(opname, a, b):
     """a & b, a | b, a ^ b.  numpy hands a sized scalar to an object array as a plain Python int,
@@ -193,8 +224,9 @@ def dtype_of(x):
         return symnp.nominal_dtype(x)
     if isinstance(x, BV):
         return x.dtype
-    if isinstance(x, R):
-        return np.dtype('f8')
+    if isinstance(x, (R, Z)):
+        # R / Z stand for Python float / int scalars, which have no dtype
+        raise AttributeError("'float' object has no attribute 'dtype'")
     return x.dtype
 
 
